@@ -3,7 +3,7 @@ from propsdef import KERNEL, CORR, HARNESS
 PROP = {
         "obligations": [
             # chunker (src/yaml/chunker.rs) over an arbitrary parser trace
-            "chunker_partition", "chunker_lag_one", "chunker_buffer_bounded", "cutAfter_snoc",
+            "chunker_partition", "chunker_lag_one", "chunker_buffer_bounded", "cutAfter_snoc", "chunker_readahead_independent",
             "no_panic_chunker", "no_panic_chunker_only_utf8", "chunker_panics_without_hypotheses",
             "trim_never_drainRange",
             # Translator + framing of the streaming outputs
